@@ -254,6 +254,8 @@ func outLast() any                               { return nil }
 //@ ensures [C06 C08] other: callret[error](exec.executeStatus, 2) == nil && !(callret[resultStatus](exec.executeStatus, 1) == statusFailed) && !(len(callret[*valueList](exec.executeStatus, 0).list) == 1 && (is[bool](callret[*valueList](exec.executeStatus, 0).list[0]) || callret[*valueList](exec.executeStatus, 0).list[0] == nil)) ==> !r0 && r1 != nil && (r1 == NULL || errIs(r1, ErrVerbose))
 //@ ensures [C08] silent-null: callret[error](exec.executeStatus, 2) == nil && !(callret[resultStatus](exec.executeStatus, 1) == statusFailed) && !errIs(r1, ErrVerbose) && r1 != nil ==> r1 == NULL
 //@ ensures [C08 C06] suppressed-failure-is-null: callret[error](exec.executeStatus, 2) == nil && callret[resultStatus](exec.executeStatus, 1) == statusFailed ==> !r0 && r1 == NULL
+//@ ensures [C06] other-is-an-error-when-verbose: callret[error](exec.executeStatus, 2) == nil && !(callret[resultStatus](exec.executeStatus, 1) == statusFailed) && !(len(callret[*valueList](exec.executeStatus, 0).list) == 1 && (is[bool](callret[*valueList](exec.executeStatus, 0).list[0]) || callret[*valueList](exec.executeStatus, 0).list[0] == nil)) && exec.verbose ==> !r0 && r1 != nil && errIs(r1, ErrVerbose)
+//@ ensures [C06 C08] other-is-null-when-silent: callret[error](exec.executeStatus, 2) == nil && !(callret[resultStatus](exec.executeStatus, 1) == statusFailed) && !(len(callret[*valueList](exec.executeStatus, 0).list) == 1 && (is[bool](callret[*valueList](exec.executeStatus, 0).list[0]) || callret[*valueList](exec.executeStatus, 0).list[0] == nil)) && !exec.verbose ==> !r0 && r1 == NULL
 
 // ---------------------------------------------------------------------------
 // execution.go: the evaluation spine
